@@ -650,12 +650,39 @@ class Interp:
             for k, v in base.items.items():
                 if is_term(k) and is_term(key) and k == key:
                     return v
+            if isinstance(key, str):
+                for k, v in base.items.items():
+                    r = self.instantiate_family(k, v, key)
+                    if r is not MISSING:
+                        return r
             return op("item", base.as_term(), to_term(idx))
         if is_term(base):
             return self.lib.term_getitem(self, base, idx, env, node)
         if isinstance(base, Ext):
             return base  # typing generics etc.
         return self.note_unknown(f"subscript of {type(base).__name__}", node, env)
+
+    def instantiate_family(self, k, v, key: str):
+        """A mapping entry added per iteration of a symbolic loop (key = a term over the iterated name)
+        instantiated for one concrete name."""
+        if not (is_term(k) and fname(k) == "elem" and is_term(v)):
+            return MISSING
+        inst = v.xreplace({k: Str(key)})
+        while fname(inst) == "guarded":
+            c = inst.args[0]
+            neg = False
+            if fname(c) == "not_":
+                neg, c = True, c.args[0]
+            if fname(c) == "contains" and isinstance(c.args[0], sp.Tuple) and T.is_str_symbol(c.args[1]):
+                val = c.args[1] in c.args[0].args
+                if neg:
+                    val = not val
+                if not val:
+                    return MISSING
+                inst = inst.args[1]
+            else:
+                return MISSING
+        return inst
 
     # ------------------------------------------------------------------ expressions
     def eval(self, node: ast.expr, env: Env):
